@@ -66,6 +66,7 @@ class UnitResult:
                     engine_error=self.engine_error, secs=round(self.secs, 3),
                     solver_secs=round(self.solver_secs, 3), src_sha=self.src_sha,
                     exits=self.exits, queries=self.queries, used=sorted(self.used),
+                    pending=getattr(self, 'pending', []),
                     obls={k: dict(status=v['status'], checks=v['checks'], secs=round(v['secs'], 3),
                                   backends=sorted(v['backends']), ce=v['ce'], detail=v['detail'],
                                   smt2=v['smt2'], where=v['where'])
@@ -182,6 +183,23 @@ def src_hash(fn):
         return None
 
 
+def function_guards(c, suffix, exits, obl_names):
+    """Vacuity guards of one (variant of a) function contract, on the merged result."""
+    if exits.get(suffix + 'return', 0) == 0 and not getattr(c.spec_cls, 'never_returns', False):
+        return f'{suffix} vacuity: no normal exit is reachable under the contract'.strip()
+    mark = c.fn.__qualname__ + suffix
+    for k, lc in c.loops.items():
+        if lc.invariant is not None and not lc.never_iterates and \
+                not any((f'{mark}/loop{k}.preserve' in n or f'{mark}/loop{k}.body' in n)
+                        for n in obl_names):
+            return (f'{suffix} vacuity: the body of loop {k} was never verified on a feasible '
+                    f'path').strip()
+    for name, _ in c.covers:
+        if exits.get(f'{suffix}cover:{name}', 0) == 0:
+            return f'{suffix} vacuity: cover {name!r} is unreachable under the contract'.strip()
+    return None
+
+
 class Verifier:
     def __init__(self, registry, goal_timeout_ms=60000, keep_smt2=False, pid=None):
         self.pid = pid
@@ -189,11 +207,20 @@ class Verifier:
         self.goal_timeout_ms = goal_timeout_ms
         self.keep_smt2 = keep_smt2
 
-    def explore(self, res, run_path):
-        stack = [[]]
+    def explore(self, res, run_path, stack=None, budget=None):
+        """Depth-first exploration of the decision tree.  stack: initial scripts (default: the
+        root); budget: stop after that many paths and leave the unexplored scripts in res.pending
+        (they are independent subtrees and can be explored by other processes)."""
+        stack = [[]] if stack is None else [list(x) for x in stack]
         t0 = time.time()
+        done = 0
+        res.pending = []
         while stack:
+            if budget is not None and done >= budget:
+                res.pending = stack
+                break
             script = stack.pop()
+            done += 1
             res.paths += 1
             if res.paths > MAX_PATHS:
                 res.engine_error = 'path limit'
@@ -239,8 +266,9 @@ class Verifier:
         return res
 
     # -- function contract -----------------------------------------------------------------------
-    def verify_function(self, c):
-        res = self._verify_function(c, '')
+    def variant_contracts(self, c):
+        """[(suffix, contract)]: the contract itself and its scenario variants for this property."""
+        out = [('', c)]
         for vname, over in c.variants.items():
             if self.pid is not None and over.get('props') and self.pid not in over['props']:
                 continue          # this scenario belongs to another property's check
@@ -256,7 +284,16 @@ class Verifier:
                     getattr(c2, k).update(v)
                 else:
                     setattr(c2, k, v)
-            r2 = self._verify_function(c2, f'[{vname}]')
+            out.append((f'[{vname}]', c2))
+        return out
+
+    def verify_function(self, c):
+        res = None
+        for suffix, c2 in self.variant_contracts(c):
+            r2 = self._verify_function(c2, suffix)
+            if res is None:
+                res = r2
+                continue
             for n, o in r2.obls.items():
                 res.obls[n] = o
             res.paths += r2.paths
@@ -265,11 +302,13 @@ class Verifier:
             res.solver_secs += r2.solver_secs
             res.queries += r2.queries
             res.used |= r2.used
+            for k, v in r2.exits.items():
+                res.exits[k] = res.exits.get(k, 0) + v
             if r2.engine_error and not res.engine_error:
-                res.engine_error = f'[{vname}] {r2.engine_error}'
+                res.engine_error = r2.engine_error
         return res
 
-    def _verify_function(self, c, suffix):
+    def _verify_function(self, c, suffix, stack=None, budget=None, finalize=True):
         res = UnitResult(c.qualname, 'function')
         res.src_sha = src_hash(c.fn)
         short = c.fn.__qualname__ + suffix
@@ -398,18 +437,13 @@ class Verifier:
                                    it.truth(calls.run_inv(it, cc, bound['self'])),
                                    where=short)
 
-        self.explore(res, run_path)
-        if not res.engine_error and res.exits.get('return', 0) == 0 and \
-                not getattr(c.spec_cls, 'never_returns', False):
-            res.engine_error = 'vacuity: no normal exit is reachable under the contract'
-        for k, lc in c.loops.items():
-            if lc.invariant is not None and not lc.never_iterates and not res.engine_error and \
-                    not any(f'/loop{k}.preserve' in n or f'/loop{k}.body' in n for n in res.obls):
-                res.engine_error = (f'vacuity: the body of loop {k} was never verified on a '
-                                    f'feasible path')
-        for name, _ in c.covers:
-            if not res.engine_error and res.exits.get(f'cover:{name}', 0) == 0:
-                res.engine_error = f'vacuity: cover {name!r} is unreachable under the contract'
+        self.explore(res, run_path, stack, budget)
+        if suffix:
+            res.exits = {suffix + k: v for k, v in res.exits.items()}
+        if finalize and not res.pending:
+            err = function_guards(c, suffix, res.exits, res.obls)
+            if err and not res.engine_error:
+                res.engine_error = err
         return res
 
     # -- lemma -----------------------------------------------------------------------------------
